@@ -126,6 +126,25 @@ Proof.
 Qed.
 Print Assumptions C17_constraint_effective_every_expression.
 
+(* 4. Regeneration.  For every earlier content of the output file (absent, or ANY bytes - e.g.
+   the mock generated from other settings), every history of earlier runs and every body: after a
+   run with force-file-write the file is exactly what THIS run's settings render - so its header
+   is [header] of the last run's boilerplate and tags, and theorems 1-3 apply to it.  The
+   write is a full overwrite; nothing of the old file survives. *)
+Theorem C17_regeneration_last_run_wins : forall body old hist s,
+  regen body old (hist ++ [(true, s)]) = Some (render_file body s) /\
+  exists rest, regen body old (hist ++ [(true, s)]) =
+               Some ((header (s_fmt s) (s_tmpl s) (s_bp s) (s_tags s) ++ pkg_line (s_pkg s)) ++ rest).
+Proof. intros. split; [apply regen_last | apply regen_last_prefix]. Qed.
+Print Assumptions C17_regeneration_last_run_wins.
+
+(* without force-file-write an existing file is left alone and the run fails; a fresh path is written *)
+Theorem C17_regeneration_write_step : forall body c force s,
+  write_step body (Some c) false s = (Some c, WExists) /\
+  write_step body None force s = (Some (render_file body s), WOk).
+Proof. intros. split; reflexivity. Qed.
+Print Assumptions C17_regeneration_write_step.
+
 (* the parser's fuel is always sufficient: never OutOfFuel *)
 Theorem C17_parser_total : forall acc ts, or_from (fuel_for ts) acc ts <> PFuel.
 Proof. exact or_from_total. Qed.
